@@ -598,6 +598,8 @@ func (e *Engine) report(prop, tier string, obls []*Obl, encs []*FuncEnc, engineE
 			}
 			if verbose && e.verbose {
 				fmt.Printf("ok    %-80s %s %.2fs\n", o.Name, o.Solver, o.Time)
+			} else if o.Time > 8 {
+				fmt.Printf("slow  %-80s %s %.1fs\n", o.Name, o.Solver, o.Time)
 			}
 			continue
 		}
